@@ -481,6 +481,7 @@ PosConsistent ==
         \/ closed /\ Slot(s).pos >= pos /\ LastSeen(s) = pos - 1     \* a poll consumed the end of stream
         \/ /\ Slot(s).kicked /\ Slot(s).pos = LastSeen(s) + 1             \* a poll found it dropped
            /\ mode[s] = "all" /\ (pos - 1 - LastSeen(s) > MaxLen \/ oow[s])
+        \/ Slot(s).kicked /\ wasKicked[s] /\ Slot(s).pos > LastSeen(s)     \* kicked between the two critical sections of a poll
 
 (* a copy starts at the value the original holds, with the original's mode; the original is untouched *)
 CopyIndependent ==
